@@ -10,6 +10,7 @@ THEOREMS = ["Output.url_resolves_iff", "Output.url_resolves_iff_visible", "Outpu
             "Output.member_anchor_exists", "Output.links_resolve", "Output.shorten_resolves", "Output.ctx_ok",
             "Output.visible_reachable", "Output.superseded_invisible", "Output.superseded_not_reachable",
             "Output.inside_superseded_not_reachable", "Output.mem_reached_iff", "Output.origin", "Output.mem_emits",
+            "Output.links_resolve_partial", "Output.valXref_ctxOk", "Output.links_resolve_counterexample_value",
             "Output.links_resolve_counterexample_superseded_old", "Output.links_resolve_counterexample_hidden_old",
             "Output.links_resolve_counterexample_context_old", "Output.inhierarchy_counterexample_old",
             "Output.inhierarchy_counterexample_collision_old"]
@@ -30,13 +31,19 @@ ASSUMPTIONS = [
     "source are read from the real System and handed to the model as relations (C04/C07/C05 cover them)",
     "urllib.parse.quote is injective and produces no '#': the model compares (file, fragment) pairs, the front end and the "
     "crawl agree on percent-decoding",
-    "no module is called like a summary page (index, moduleIndex, classIndex, nameIndex, undoccedSummary, all-documents)",
+    "the model assumes that no module is called like a summary page (index, moduleIndex, classIndex, nameIndex, undoccedSummary, "
+    "all-documents); projects with such roots are generated as oracle-only cases (open finding summary-page-overwritten)",
     "not modelled: compact module list (> 50 submodules), letter anchors of nameIndex.html, docstring tables of contents, "
     "zope.interface rows, extra_info other than the constructor note, --html-subject (the crawl oracle still sees them)",
     "a project with no visible object at all aborts in lunr (ZeroDivisionError) before writing: such runs are counted "
     "(run-crash) and skipped - no output exists (proposed repair: fixes/C01-empty-search-corpus.diff)",
 ]
 PARTIAL = {
+    "Output.links_resolve": "full for 28 of the 29 producer rows; the row of default values / decorators / constant values (valXref) "
+                            "is excluded: the object's own linker keeps the page of the module it was defined in "
+                            "(links_resolve_counterexample_value, open finding dead-link:annotation:shortened-for-another-page)",
+    "Output.links_resolve_partial": "all rows, under: the link's shortening context is the page it is written into (for valXref: "
+                                    "the linker remembers the page the object is shown on, valXref_ctxOk)",
     "Output.inHierarchy": "no theorem: that the 'View In Hierarchy' link (classIndex.html#<fullName>) of every class page has "
                           "its anchor is checked by the correspondence (streams inhierarchy / classanchors) and the direct oracle "
                           "only; the two ways it failed are the `inhierarchy_counterexample_*_old` witnesses",
@@ -55,9 +62,22 @@ def nontrivial(res) -> bool:
     return bool((m.get("basetable") or "").strip() or (m.get("overrides") or "").strip())
 
 
+def overwritten_summary_page(res, target_fn: str) -> bool:
+    """the file a link leads to is a summary page (or index.html) whose name is also the page name of a root module:
+    two writers share one file name"""
+    t: oc.Truth = res["truth"]
+    stem = target_fn[:-5] if target_fn.endswith(".html") else target_fn
+    if stem not in oc.SUMMARY_PAGES and stem != "index":
+        return False
+    return any(o["parent"] is None and o["full"] == stem for o in t.objs)
+
+
 def classify(res, fn: str, prod: str, href: str, label, why: str) -> str:
     t: oc.Truth = res["truth"]
     name = oc.PRODUCER_NAMES.get(prod, prod)
+    target_fn = oc.unquote(href.split("#")[0]) or fn
+    if overwritten_summary_page(res, target_fn):
+        return "dead-link:%s:summary-page-overwritten" % name
     if prod == "alldocs":
         name = "all-documents"
     if prod == "inhierarchy":
@@ -100,7 +120,16 @@ def oracle(ctx: Ctx, res) -> None:
             ok, why = oc.resolve_ref(cr, fn, v)
             if not ok:
                 sig = "dead-link:template:" + why
-                if v.startswith("#") and ("rst-" + oc.unquote(v[1:])) in pg["anchors"]:
+                roots = [o for o in t.objs if o["parent"] is None]
+                if overwritten_summary_page(res, oc.unquote(v.split("#")[0]) or fn):
+                    sig = "dead-link:template:summary-page-overwritten"
+                elif v.split("#")[0] == "index.html" and why == "no-file" and len(roots) == 1 and not roots[0]["visible"]:
+                    # with a single root, index.html is the root's page: a hidden root leaves none
+                    sig = "dead-link:template:index-missing-single-root-hidden"
+                elif v.startswith("#rst-toc-entry-"):
+                    # a title's back-reference to its entry in the table of contents
+                    sig = "dead-link:docstring-heading:toc-entry-not-on-page"
+                elif v.startswith("#") and ("rst-" + oc.unquote(v[1:])) in pg["anchors"]:
                     # markup written by docutils itself: pydoctor prefixes ids with 'rst-', this href was not
                     sig = "dead-link:rst-docstring:unprefixed-fragment"
                 elif v.startswith("#rst-"):
